@@ -86,9 +86,16 @@ def main():
         chk.count("kernel%s" % (cfg,))
         chk.q(r["verdict"] if r["verdict"] in ("unsat", "sat") else "unknown")
         if r["verdict"] == "sat":
-            chk.violation({"kind": "swizzle_target", "signed": cfg[1]}, "width %d %s domain [%d,%d]: the randomising constraints for a drawn target do not "
-                          "determine the field, the rest is left to the solver's default model (values can be starved): %s" % (
-                              cfg[0], "signed" if cfg[1] else "unsigned", cfg[2] if not isinstance(cfg[2], list) else -1, cfg[3], str(cfg[2]) + " " + str(r["model"])),
+            if r.get("reproduced") is not True:
+                chk.harness_error("kernel counterexample did not replay on the real Boolector: %s" % (r,))
+                continue
+            dom = [[cfg[2], cfg[3]]] if not isinstance(cfg[2], list) else cfg[2]
+            rejects = r.get("t") == r.get("f")
+            chk.violation({"kind": "swizzle_target", "signed": cfg[1], "rejects_target": rejects},
+                          "width %d %s domain %s (range %s picked, target %s): the randomising constraints %s (replayed with the real Boolector), so the "
+                          "field is left to the solver's default model and values are starved" % (
+                              cfg[0], "signed" if cfg[1] else "unsigned", dom, cfg[3] if len(dom) > 1 else 0, r.get("t"),
+                              "cannot be satisfied by the target itself and are dropped" if rejects else "still admit f == %s" % (r.get("f"),)),
                           {"engine": "kernel", "cfg": cfg, "model": r["model"]})
         elif r["verdict"] != "unsat":
             chk.note_inconclusive("kernel %s: %s" % (cfg, r["verdict"]))
